@@ -46,6 +46,8 @@ pub struct PutIter<'a> { pub seq: Ghost<Seq<(u32, TNode)>>, pub pos: Ghost<int>,
 impl TmpNodesReader {
     pub uninterp spec fn tv(&self) -> TmpV;
     pub uninterp spec fn rm(&self) -> Map<u32, u32>;
+    pub uninterp spec fn allocated(&self) -> Set<u32>;
+    pub uninterp spec fn taken(&self) -> spec_fn(u16) -> Set<u32>;
     /// ids scheduled for deletion, ascending
     #[verifier::external_body]
     pub fn to_delete(&self) -> (r: BmIter) ensures r.seq@ == bm_seq(self.tv().deleted), r.pos@ == 0 { unimplemented!() }
@@ -68,7 +70,7 @@ impl<'a> PutIter<'a> {
 impl TmpNodes {
     #[verifier::external_body]
     pub fn into_bytes_reader(self) -> (r: Result<TmpNodesReader>)
-        ensures r matches Ok(rd) ==> rd.tv() == self.tv() && rd.rm() == self.rm(), r matches Err(e) ==> e is Io || e is Heed
+        ensures r matches Ok(rd) ==> rd.tv() == self.tv() && rd.rm() == self.rm() && rd.allocated() == self.allocated() && rd.taken() == self.taken(), r matches Err(e) ==> e is Io || e is Heed
     { unimplemented!() }
 }
 
